@@ -14,6 +14,7 @@ what is assumed about them is a hypothesis of the theorem that uses them, and ea
 hypothesis is checked on the values the real code returns by the correspondence.
 -/
 import SharkVerif.Lemmas.LinReg
+import SharkVerif.Lemmas.Stats
 import Mathlib.Tactic.NormNum
 import Mathlib.Tactic.IntervalCases
 namespace SharkVerif.C15
@@ -31,6 +32,117 @@ theorem meanvar_batch_independent (bs bs' : List (List Vec)) (h : bs.flatten = b
   refine ⟨hm j, ?_, ?_⟩
   · simp only [variance, bsum_eq_flatten, count_eq_flatten, h, hm]
   · simp only [covariance, bsum_eq_flatten, count_eq_flatten, h, hm]
+
+/-- a column has zero variance exactly when it is constant -/
+theorem variance_zero_iff_constant (bs : List (List Vec)) (j : Nat) (hne : bs.flatten ≠ []) :
+    variance bs j = 0 ↔ ∀ x ∈ bs.flatten, x.at j = mean bs j :=
+  variance_eq_zero_iff bs j hne
+
+/-! ## Component normalisers -/
+
+/-- **`NormalizeComponentsUnitVariance`** (every dataset, batch partition, dimension; `sqrt` is a
+parameter whose specification `sqrt v · sqrt v = v` is assumed at the variance of the column).
+On a non-constant column the transformed training data have variance 1 and mean 0 (mean
+`mean/stddev` if the trainer was built with `zeroMean = false`); a constant column
+(variance 0) is mapped to 0 identically. -/
+theorem unitvariance_output (sqrt : Rat → Rat) (zeroMean : Bool) (bs : List (List Vec)) (d j : Nat) (hj : j < d)
+    (hne : bs.flatten ≠ [])
+    (hs : sqrt (variance bs j) * sqrt (variance bs j) = variance bs j) :
+    let out := (unitVariance sqrt zeroMean bs).applyData d bs
+    (variance bs j ≠ 0 →
+        variance out j = 1 ∧ mean out j = if zeroMean then 0 else mean bs j / sqrt (variance bs j))
+    ∧ (variance bs j = 0 → ∀ y ∈ out.flatten, y.at j = 0) := by
+  intro out
+  constructor
+  · intro hv
+    have hs0 : sqrt (variance bs j) ≠ 0 := by
+      intro h0; rw [h0] at hs; exact hv (by linarith)
+    have hT : ∀ x ∈ bs.flatten, ((unitVariance sqrt zeroMean bs).apply d x).at j
+        = (1 / sqrt (variance bs j)) * x.at j
+          + (if zeroMean then -(mean bs j) / sqrt (variance bs j) else 0) := by
+      intro x _
+      rw [normalizer_apply_at _ d j x hj]
+      simp only [unitVariance, hs0, if_false]
+    constructor
+    · show variance ((bs.map fun b => b.map ((unitVariance sqrt zeroMean bs).apply d))) j = 1
+      rw [variance_affine bs _ j _ _ hne hT]
+      have : 1 / sqrt (variance bs j) * (1 / sqrt (variance bs j)) * (sqrt (variance bs j) * sqrt (variance bs j)) = 1 := by
+        field_simp
+      rw [hs] at this
+      exact this
+    · show mean ((bs.map fun b => b.map ((unitVariance sqrt zeroMean bs).apply d))) j = _
+      rw [mean_affine bs _ j _ _ hne hT]
+      cases zeroMean
+      · simp; ring
+      · simp; field_simp; ring
+  · intro hv
+    have hs0 : sqrt (variance bs j) = 0 := by
+      have h0 : sqrt (variance bs j) * sqrt (variance bs j) = 0 := by rw [hs]; exact hv
+      exact mul_self_eq_zero.mp h0
+    intro y hy
+    have : out.flatten = bs.flatten.map ((unitVariance sqrt zeroMean bs).apply d) := flatten_map_map bs _
+    rw [this] at hy
+    rcases List.mem_map.mp hy with ⟨x, _, rfl⟩
+    rw [normalizer_apply_at _ d j x hj]
+    simp [unitVariance, hs0]
+
+/-- non-vacuity of `unitvariance_output`: the column (0, 2) has variance 1 and `sqrt 1 = 1` -/
+example : ([[[0]], [[2]]] : List (List Vec)).flatten ≠ [] ∧
+    (fun v : Rat => if v = 1 then 1 else 0) (variance [[[0]], [[2]]] 0)
+      * (fun v : Rat => if v = 1 then 1 else 0) (variance [[[0]], [[2]]] 0) = variance [[[0]], [[2]]] 0
+    ∧ variance [[[0]], [[2]]] 0 ≠ 0 := by
+  refine ⟨by simp, ?_, ?_⟩ <;> norm_num [variance, mean, bsum, lsum, count, Vec.at]
+
+/-- **`NormalizeComponentsUnitInterval`** (repaired trainer, see F-C15-1): on a non-constant
+column the transformed training data lie in `[0,1]` and attain both 0 and 1; a constant
+column is mapped to 1/2. -/
+theorem unitinterval_output (bs : List (List Vec)) (d j : Nat) (hj : j < d) (hne : bs.flatten ≠ []) :
+    let m := unitInterval bs
+    (colMin bs j ≠ colMax bs j →
+        (∀ x ∈ bs.flatten, 0 ≤ (m.apply d x).at j ∧ (m.apply d x).at j ≤ 1)
+        ∧ (∃ x ∈ bs.flatten, (m.apply d x).at j = 0) ∧ (∃ x ∈ bs.flatten, (m.apply d x).at j = 1))
+    ∧ (colMin bs j = colMax bs j → ∀ x ∈ bs.flatten, (m.apply d x).at j = 1 / 2) := by
+  intro m
+  constructor
+  · intro hc
+    obtain ⟨xlo, hxlo, hlo⟩ := colMin_attained bs j hne
+    obtain ⟨xhi, hxhi, hhi⟩ := colMax_attained bs j hne
+    have hle : colMin bs j ≤ colMax bs j := le_trans (colMin_le bs j xlo hxlo) (le_colMax bs j xlo hxlo)
+    have hlt : 0 < colMax bs j - colMin bs j := by
+      rcases lt_or_eq_of_le hle with h | h
+      · linarith
+      · exact absurd h hc
+    have hval : ∀ x, (m.apply d x).at j = (x.at j - colMin bs j) / (colMax bs j - colMin bs j) := by
+      intro x
+      rw [normalizer_apply_at _ d j x hj]
+      simp only [m, unitInterval, unitIntervalWith, hc, if_false]
+      field_simp
+      ring
+    refine ⟨fun x hx => ?_, ⟨xlo, hxlo, ?_⟩, ⟨xhi, hxhi, ?_⟩⟩
+    · rw [hval]
+      have h1 := colMin_le bs j x hx
+      have h2 := le_colMax bs j x hx
+      exact ⟨div_nonneg (by linarith) hlt.le, by rw [div_le_iff₀ hlt]; linarith⟩
+    · rw [hval, hlo]; simp
+    · rw [hval, hhi]; exact div_self hlt.ne'
+  · intro hc x _
+    rw [normalizer_apply_at _ d j x hj]
+    simp [m, unitInterval, unitIntervalWith, hc]
+
+/-- **F-C15-1** — what the pinned source does on a constant column with value `v`:
+every point is mapped to `1/2 − v`. -/
+theorem unitinterval_pinned_constant_column (bs : List (List Vec)) (d j : Nat) (hj : j < d)
+    (hc : colMin bs j = colMax bs j) (x : Vec) :
+    ((unitIntervalPinned bs).apply d x).at j = 1 / 2 - colMin bs j := by
+  rw [normalizer_apply_at _ d j x hj]
+  simp [unitIntervalPinned, unitIntervalWith, hc]
+  ring
+
+/-- witness: two points with the constant feature 1 are mapped to −1/2, outside `[0,1]` -/
+theorem unitinterval_pinned_out_of_range :
+    ((unitIntervalPinned [[[1], [1]]]).apply 1 [1]).at 0 = -1 / 2 := by
+  rw [unitinterval_pinned_constant_column _ 1 0 (by omega) (by norm_num [colMin, colMax, Vec.at])]
+  norm_num [colMin, Vec.at]
 
 /-! ## Linear (ridge) regression -/
 
